@@ -707,6 +707,58 @@ fn run_il2p(seed: u64) -> Result<u64, Fail> {
 // ------------------------------------------------------------------------------------------------ audec
 /// AuDecode: every data offset 0..=40 and a few large ones, wrong magic / encoding / rate / channels, then PCM payload in
 /// random pieces (odd sizes included): never a panic; either an error value or exactly one sample per two payload bytes.
+/// AuDecode with its output completely full and exactly `left` bytes (2 = one whole sample, 3, 4) still unread in the
+/// input: only the full output blocks it, so a wait that the input already satisfies -- twice in a row, nothing moving --
+/// is a block that spins (and, with the upstream gone, one that a runner retires with a decodable sample unread).
+fn run_audec_full_output(seed: u64) -> Result<u64, Fail> {
+    let t = "audec";
+    let mut works = 0u64;
+    for left in [2usize, 3, 4] {
+        let (w, r) = new_stream::<u8>();
+        let (mut b, o) = AuDecode::new(r, 8000);
+        let cap = o.total_size();
+        let mut data: Vec<u8> = vec![];
+        data.extend(0x2e736e64u32.to_be_bytes());
+        data.extend(28u32.to_be_bytes());
+        data.extend(0xffff_ffffu32.to_be_bytes());
+        data.extend(3u32.to_be_bytes());
+        data.extend(8000u32.to_be_bytes());
+        data.extend(1u32.to_be_bytes());
+        data.extend([0u8; 4]);
+        data.extend((0..2 * cap + left).map(|i| (i % 251) as u8));
+        let mut pos = 0;
+        let mut guard = 0;
+        loop {
+            guard += 1;
+            if guard > 2000 { return Ok(works); } // does not settle in this configuration: nothing checked here
+            feed(&w, &data, &mut pos, usize::MAX, &no_tags);
+            let v = work(t, seed, &mut b)?;
+            works += 1;
+            if v != 0 && pos == data.len() { break; }
+        }
+        if o.read_buf().unwrap().0.len() != cap || r_len(&w) != left { continue; }
+        let mut spins = 0;
+        for _ in 0..2 {
+            let quick = std::panic::catch_unwind(std::panic::AssertUnwindSafe(|| match b.work() {
+                Ok(BlockRet::WaitForStream(s, n)) => {
+                    let t0 = std::time::Instant::now();
+                    let _ = s.wait(n);
+                    t0.elapsed() < std::time::Duration::from_millis(40) && !s.closed()
+                }
+                _ => false,
+            })).map_err(|_| fail(t, "C15", "work-does-not-panic", format!("work() panicked with a full output and {left} bytes of input"), seed))?;
+            works += 1;
+            if quick && o.read_buf().unwrap().0.len() == cap { spins += 1; }
+        }
+        if spins == 2 {
+            return Err(fail(t, "C09", "wait-names-the-blocking-stream", format!("output completely full, {left} bytes waiting in the input: two calls in a row made no progress and reported a wait that is already satisfied (the input holds what was asked for; only the output blocks): the block spins"), seed));
+        }
+    }
+    Ok(works)
+}
+/// bytes a writer's peer has not consumed yet (capacity minus free space)
+fn r_len(w: &WriteStream<u8>) -> usize { 4_096_000 - w.free() }
+
 fn run_audec(seed: u64) -> Result<u64, Fail> {
     let t = "audec";
     let mut rng = Rng(seed * 982451653 + 3);
@@ -1161,7 +1213,7 @@ fn bx_io() {
                 "stream" => run_stream(seed),
                 "misc" => { if i > 0 { break; } run_misc(seed) }
                 "totext" => { if i > 7 { break; } run_totext(seed) }
-                "audec" => { if i > 1 { break; } run_audec(seed) }
+                "audec" => { if i > 1 { break; } match if i == 0 { run_audec_full_output(seed) } else { Ok(0) } { Err(f) => Err(f), Ok(_) => run_audec(seed) } }
                 "sigmf" => { if i > 1 { break; } run_sigmf(seed) }
                 _ => Ok(0),
             };
